@@ -47,7 +47,23 @@ func (vc *VC) primitiveMod(f *ssa.Function, c *ssa.CallCommon, li *loopInfo) {
 	case n == "(*sync.Cond).Broadcast", n == "(*sync.Cond).Signal":
 		li.mod["G:$broadcasts"] = true
 	case n == "(*sync.Cond).Wait":
-		li.modAll = true // other goroutines run while waiting
+		// other goroutines run while waiting: they may change what this function's contract lists in modifies
+		if vc.fc == nil || len(vc.fc.clauses("modifies")) == 0 {
+			li.modAll = true
+			return
+		}
+		for _, cl := range vc.fc.clauses("modifies") {
+			for _, tgt := range splitTargets(cl.Text) {
+				keys, ok := vc.staticTargetKeys(tgt, vc.fn, nil)
+				if !ok {
+					li.modAll = true
+					return
+				}
+				for _, k := range keys {
+					li.mod[k] = true
+				}
+			}
+		}
 	case n == "(*sync.Pool).Get", n == "time.NewTicker", n == "context.WithCancel", n == "fmt.Errorf", n == "errors.New":
 		li.mod[allocKey] = true
 	case n == "(*time.Ticker).Stop":
@@ -173,11 +189,11 @@ func (st *State) primitive(f *ssa.Function, args []Val, site ssa.Instruction) (V
 		if vc.fc != nil && len(vc.fc.clauses("modifies")) > 0 {
 			ec := st.evalCtx()
 			ec.names = st.topNames()
+			var tgts []string
 			for _, c := range vc.fc.clauses("modifies") {
-				for _, tgt := range splitTargets(c.Text) {
-					ec.havocTarget(tgt)
-				}
+				tgts = append(tgts, splitTargets(c.Text)...)
 			}
+			ec.havocTargets(tgts)
 			for _, c := range vc.fc.clauses("rely") {
 				e, err := c.expr()
 				if err != nil {
@@ -225,6 +241,7 @@ func (st *State) primitive(f *ssa.Function, args []Val, site ssa.Instruction) (V
 		r := st.allocRef("ticker")
 		// the ticker's channel C
 		ch := st.allocRef("tickC")
+		st.curChanElem = types.Typ[types.Int] // the ticker's channel carries time.Time values (modelled as Int)
 		st.chanInit(ch, tInt(1))
 		p := PtrV{Kind: "obj", Root: "time.Ticker", Base: r, Path: "C", Elem: types.NewChan(types.RecvOnly, types.Typ[types.Int])}
 		st.writeLeaf(PtrV{Kind: "obj", Root: "time.Ticker", Base: r}, leaf{"C", nil, SInt}, ch)
@@ -434,7 +451,7 @@ type ghostStmt struct {
 	clause *Clause
 }
 
-var ghostRe = regexp.MustCompile(`^(entry|at return|after call|before call|at go|after store|after load)\s*((?:[^:#]|::)*?)(?:#(\d+))?\s*(?:when\s+(.*?))?:\s(.*)$`)
+var ghostRe = regexp.MustCompile(`^(entry|at return|after call|before call|at go|after store|after load|at backedge)\s*((?:[^:#]|::)*?)(?:#(\d+))?\s*(?:when\s+(.*?))?:\s(.*)$`)
 
 func (vc *VC) parseGhostStmts() {
 	if vc.fc == nil {
@@ -724,6 +741,18 @@ func (st *State) poolInvariant(p PtrV, v Val, isPut bool, site ssa.Instruction) 
 		ec.names["$poolv"] = v
 		if pk := vc.pkgByShort(td.Pkg); pk != nil {
 			ec.pkg = pk
+		}
+		// the type parameters of the declaring type, as instantiated at this site
+		if call, ok := site.(ssa.CallInstruction); ok && len(call.Common().Args) > 0 {
+			if fa, ok := call.Common().Args[0].(*ssa.FieldAddr); ok {
+				if n, ok := types.Unalias(derefType(fa.X.Type())).(*types.Named); ok && n.TypeArgs() != nil {
+					env := map[string]types.Type{}
+					for i := 0; i < n.TypeArgs().Len() && i < n.Origin().TypeParams().Len(); i++ {
+						env[n.Origin().TypeParams().At(i).Obj().Name()] = n.TypeArgs().At(i)
+					}
+					ec.tparams = env
+				}
+			}
 		}
 		t := ec.evalBool(e)
 		if isPut {
